@@ -81,7 +81,7 @@ def classify(install):
 
 def run(ctx):
     ctx.rule = ("[Install] sections with 0-2 WantedBy/RequiredBy assignments of 0-3 words (plain names, names with '/' anywhere including a trailing separator or '/.', '..', blanks, non-ASCII) and 0-2 Alias assignments (plain, nested, "
-                "with '.'/'..', climbing out, absolute paths pointing at decoy files outside the output directory, '/', '..'), with and without template names (also instance names that begin with or contain '@') and DefaultInstance; each run "
+                "with '.'/'..', climbing out, absolute paths pointing at decoy files outside the output directory, '/', '..'), with and without template names (also instance names that begin with or contain '@') and DefaultInstance; in 30% of the cases left-overs of an earlier run (links to another service, dangling links, plain files) sit at the link paths; each run "
                 "through the real enable_service_file in a scratch tree with decoys; non-trivial = at least one Alias or a word with '/' or '..'; distinct = distinct (service name, section)")
     rng = ctx.rng
     n = ctx.volume(400, 5000)
@@ -101,6 +101,23 @@ def run(ctx):
             open(os.path.join(d, "out", svcfile), "w").write("[Service]\n")
             inst_abs = [(k, v.replace("/ABS", d + "/ABS").replace("//ABS", d + "//ABS").replace("OUTSIDE", "OUTSIDE")) for k, v in inst]
             text = "[Install]\n" + "".join("%s=%s\n" % e for e in inst_abs)
+            # left-overs of an earlier run at some of the link paths (a link to another service, a dangling link, a plain file): the
+            # generator REPLACES what is there -- afterwards the path must be the link this run asks for
+            if rng.random() < 0.3:
+                open(os.path.join(d, "out", "old.service"), "w").write("[Service]\n")
+                for rel in sorted(expected_links(inst, svcfile)):
+                    if rng.random() < 0.6 and rel != svcfile:
+                        lp = os.path.join(d, "out", rel)
+                        try:
+                            os.makedirs(os.path.dirname(lp), exist_ok=True)
+                            kind = rng.choice(["other", "dangling", "file"])
+                            if kind == "file":
+                                open(lp, "w").write("stale")
+                            else:
+                                os.symlink(os.path.relpath(os.path.join(d, "out", "old.service" if kind == "other" else "gone.service"), os.path.dirname(lp)), lp)
+                            ctx.count("preexisting:" + kind)
+                        except OSError:
+                            pass
             cases.append(case_line("enable", os.path.join(d, "out"), svcfile, text))
             work.append((d, svcfile, inst_abs, text))
         before = [e2e.snapshot(w[0]) for w in work]
